@@ -90,6 +90,14 @@ def run_scenario(item):
                     note('transaction_in_progress_broken', client=n, got=rep.brief() + ' / ' + rep2.brief(),
                          after_signal=t_sig is not None)
                 state[n] = 'idle'
+            elif op == 'cancel':
+                # a CancelRequest with a key nobody holds: the pooler must contact no server, and must count right
+                from .client import send_cancel
+                try:
+                    send_cancel(w.port, rng.randrange(1, 2 ** 31 - 1), rng.randrange(1, 2 ** 31 - 1))
+                except OSError:
+                    pass
+                time.sleep(0.05)
             elif op == 'leave':
                 c = clients.get(n)
                 if c is not None and state.get(n) == 'idle':
@@ -230,7 +238,7 @@ def check_c17(prop, tier, seed):
     v.add_mc('mc:design', res)
     if res.rc != 0:
         v.tool_error('Shutdown design rc=%d %s' % (res.rc, res.errors()[:2]))
-    for d in ('no_admin_only_gate', 'exit_on_any_drain', 'kick_in_tx'):
+    for d in ('no_admin_only_gate', 'exit_on_any_drain', 'kick_in_tx', 'cancel_not_counted'):
         r2 = tlc.run_tlc('Shutdown', 'MC_Shutdown_dev_%s.cfg' % d, workers=8)
         v.add_mc('mc:dev:' + d, r2)
         if not r2.invariant_violated and not r2.property_violated:
@@ -269,6 +277,8 @@ def check_c17(prop, tier, seed):
                 state[x['c']] = 'idle'
             elif x['op'] == 'leave':
                 state.pop(x['c'], None)
+            elif x['op'] == 'cancel' and not any(y.startswith('sig') for y in f):
+                f.append('cancel_before')
         return tuple(f)
     byf = {}
     for s in withsig:
